@@ -16,7 +16,7 @@ RULE = ("for every state reached by a generated history (both classes, both mode
         "stream) == snapshot of a twin that received only the preceding elements; then a random legal "
         "continuation is applied to both and outcomes+snapshots compared after every step. A fault is non-trivial "
         "when the call was really rejected; distinct = distinct (model state, fault call).")
-MIN = {"quick": {"rejected:no-trace": 20000, "continuation:same-observables": 5000},
+MIN = {"quick": {"rejected:no-trace": 12000, "continuation:same-observables": 4000},
        "thorough": {"rejected:no-trace": 400000, "continuation:same-observables": 100000}}
 REQUIRED_CELLS = {t: ("fault:add", "fault:addfrom", "fault:path", "fault:star", "fault:cycle", "fault:dn.path",
                       "fault:t=None", "fault:dn.star", "fault:large-bunch", "mode:accumulative", "mode:removal", "class:DynGraph", "class:DynDiGraph")
